@@ -153,7 +153,7 @@ class Case(object):
     self.t0 = time.time()
 
   def solve(self, qname, bad, assumptions=(), expect='unsat', timeout=60, witness=None,
-            sig=None, required=True, kind='main', replay=None, note=None, logic=None):
+            sig=None, required=True, kind='main', replay=None, note=None, logic=None, robust=None):
     """Ask the solver for a model of  assumptions AND ctx-assumptions AND bad.
 
     expect='unsat': property query (sat = candidate violation).
@@ -177,6 +177,32 @@ class Case(object):
       res['note'] = note
     if verdict == 'unknown':
       res['reason'] = s.reason_unknown()
+    if verdict == 'sat' and expect == 'unsat' and robust is not None:
+      # Two-stage verdict (DESIGN 1.7): the exact question has a witness; ask
+      # again for a witness that violates by a margin inside a stated box, so
+      # that only violations that survive floating-point rounding are reported.
+      s2 = z3.Solver()
+      s2.set('timeout', int(timeout * 1000))
+      for a in list(c.assumptions) + list(c.case_assumptions) + list(assumptions) + list(robust.get('assumptions', [])):
+        s2.add(a)
+      rb = robust['bad']
+      if isinstance(rb, (list, tuple)):
+        rb = z3.Or([sym.b(x) for x in rb]) if rb else z3.BoolVal(False)
+      s2.add(sym.b(rb))
+      t = time.time()
+      r2 = s2.check()
+      res['solve_s'] = round(dt + time.time() - t, 3)
+      res['stage1'] = 'sat'
+      res['stage2'] = str(r2)
+      if r2 == z3.unsat:
+        m1 = s.model()
+        res['boundary_witness'] = {k: model_array(m1, arr) for k, arr in (witness or {}).items()}
+        res['verdict'] = verdict = 'unsat'
+        res['note'] = 'holds up to rounding: exact-arithmetic boundary witness only, none with margin %s' % robust.get('margin')
+      elif r2 == z3.sat:
+        s = s2
+      else:
+        res['weak_witness'] = True
     if verdict == 'sat' and expect == 'unsat':
       m = s.model()
       w = {}
@@ -292,6 +318,38 @@ def concretise_dens(arr, assumptions=(), timeout=20):
     val = cache[k][1]
     out[idx] = x if val is None else sym.s_mul(x.n, Fraction(1) / Fraction(val))
   return out
+
+
+def far_arrays(a, b_, margin):
+  """z3 Bool: arrays differ by more than margin somewhere."""
+  a = np.asarray(a, dtype=object)
+  b_ = np.asarray(b_, dtype=object)
+  out = []
+  for x, y in zip(a.reshape(-1), b_.reshape(-1)):
+    d = sym.s_sub(x, y)
+    out.append(sym.s_cmp('gt', d, margin))
+    out.append(sym.s_cmp('lt', d, -margin))
+  return any_of(out)
+
+
+MARGIN = Fraction(1, 64)
+BOX = 64
+
+
+def robust_cons(cons, inputs, margin=MARGIN, bound=BOX, extra_bad=()):
+  from vf import specs
+  assumptions = []
+  for arr in inputs:
+    assumptions += box(arr, -bound, bound)
+  return dict(bad=any_of(specs.violated(cons, margin) + list(extra_bad)), assumptions=assumptions,
+              margin='%s on |inputs| <= %s' % (margin, bound))
+
+
+def robust_neq(a, b_, inputs, margin=MARGIN, bound=BOX):
+  assumptions = []
+  for arr in inputs:
+    assumptions += box(arr, -bound, bound)
+  return dict(bad=far_arrays(a, b_, margin), assumptions=assumptions, margin='%s on |inputs| <= %s' % (margin, bound))
 
 
 def box(arr, lo, hi):
